@@ -128,3 +128,5 @@ func Universe(r *rand.Rand, c Cfg, n int) []uint64 {
 
 func opIns(slot int, k, v uint64) string { return fmt.Sprintf("ins %d %d %d", slot, k, v) }
 func opDel(slot int, k, v uint64) string { return fmt.Sprintf("del %d %d %d", slot, k, v) }
+
+func crcChecksum(b []byte) uint64 { return crc64.Checksum(b, crcTab) }
